@@ -55,11 +55,12 @@ theorem status_unchanged_without_checksums (fs : FlowState F) (r : Round) (hlen 
   | skipped => simp [slotTtl] at ht
   | failed p =>
     simp only [slotTtl, Option.some.injEq] at ht; subst ht
-    obtain ⟨fs', hop, h1, h2, h3⟩ := hop_after_round fs r hlen hwf pre post _ _ _ hsplit (by simp [tagOf]; rfl)
+    obtain ⟨fs', hop, h1, h2, h3⟩ := hop_after_round fs r hlen hwf pre post (Slot.failed p) p.ttl (Outcome.failed p) hsplit rfl
     exact ⟨fs', hop, _, h1, h2, h3, rfl⟩
   | awaited p =>
     simp only [slotTtl, Option.some.injEq] at ht; subst ht
-    obtain ⟨fs', hop, h1, h2, h3⟩ := hop_after_round fs r hlen hwf pre post _ _ _ hsplit (by simp [tagOf]; rfl)
+    obtain ⟨fs', hop, h1, h2, h3⟩ := hop_after_round fs r hlen hwf pre post (Slot.awaited p) p.ttl
+      (Outcome.awaited p (lossOf pre (Slot.awaited p) post)) hsplit rfl
     exact ⟨fs', hop, _, h1, h2, h3, rfl⟩
   | complete c =>
     simp only [slotTtl, Option.some.injEq] at ht; subst ht
@@ -146,12 +147,14 @@ theorem single_rewrite_detected_once (p₁ p₂ : List Slot) (v w : Nat) (hvw : 
         obtain ⟨s, hs2, hsq⟩ := List.mem_filterMap.1 (List.mem_of_getLast? hl)
         have := h₂ s (by simp [hs, hs2]) q hsq
         simp [hne, this]
-    unfold ckPair at hp
+    have hea : c.expCk = some v ∧ c.actCk = some w := by
+      unfold ckPair at hp
+      cases he : c.expCk <;> cases ha : c.actCk <;> simp_all
     unfold natOf
-    cases he : c.expCk <;> cases ha : c.actCk <;> simp_all
-    · by_cases hn : pre.filterMap ckPair = []
-      · simp [hn]; exact fun h => hvw h.symm
-      · simp [hn]
+    simp only [hea.1, hea.2, hlast]
+    by_cases hn : pre.filterMap ckPair = []
+    · simp [hn]; exact fun h => hvw h.symm
+    · simp [hn]
 
 /-! ### non-vacuity -/
 
